@@ -32,6 +32,8 @@ T['C02'] = ("""C02 Each field maps to one attribute, named and typed as document
     ('C02_schema_through_run', 'schema_entry_through_run', 'the same stated for the roots the plugin emits for a request (through run)'),
     ('C02_source_kind_rules', 'src_kind_rules_agree', "tie to the source: the decision rules of field.go getKind, as read on this run, give for all 32 combinations of the five flags the kind the model's front end decides"),
     ('C02_kind_from_source', 'build_view_kind_from_source', "and the kind of every field the front end builds is what those rules give for the field's flags (custom type, map, map of messages, repeated, message)"),
+    ('C02_front_end_kind_spec', 'build_view_kind_spec', 'front end, complete characterisation of the single field built for a declared field: kind (custom / map / list / object / primitive, time and duration being primitives), element Terraform kind, Go cast, pointer-ness, zero literal, suffix'),
+    ('C02_time_duration_primitive', 'build_view_time_duration_primitive', 'a time or duration field is a primitive (or list of primitives) of the configured type with no zero literal'),
 ])
 
 T['C03'] = ("""C03 CopyTo into an empty schema-typed object is total and schema-conformant (proved for the class tf_ok:
@@ -104,6 +106,15 @@ T['C06'] = ("""C06 Malformed input becomes diagnostics, never a panic.""", [
     ('C06_from_total_chain_partial', 'copy_from_total_chain_partial', 'CopyFrom with chains of nullable embedded messages of any length returns on every payload-typed object; an outermost pointer all of whose promoted attributes are null/unknown/missing ends nil; a known non-null promoted attribute ends with every pointer on its chain set'),
 ])
 
+T['C06'][1].extend([
+    ('C06_diag_kinds_independent', 'C06_diag_kinds_independent_exact', 'diagnostics: a second problem of another kind under the same path is appended, not merged with the first (Append drops only what is Equal in kind and path)'),
+    ('C06_diag_fold_exact', 'C06_diag_fold_exact', 'appending any sequence of diagnostics keeps exactly its distinct members, none twice'),
+    ('C06_from_diag_monotone', 'C06_from_diag_monotone', 'CopyFrom never loses a diagnostic it has already recorded (fields and messages, every kind of field)'),
+    ('C06_from_twin_kinds', 'C06_from_twin_kinds', 'a list of objects in which one element lacks an attribute and another holds it with a wrong type: both the missing and the conversion diagnostic are reported for that path, wherever the two elements are and whatever else the list holds'),
+    ('C06_from_twin_kinds_map', 'C06_from_twin_kinds_map', 'the same for a map of objects'),
+    ('C06_copy_from_twin_kinds', 'C06_copy_from_twin_kinds', 'the same through the whole converter, from an empty diagnostics list, and no diagnostic is reported twice'),
+])
+
 T['C07'] = ("""C07 Oneof groups stay exclusive in both directions.""", [
     ('C07_from_none', 'from_fields_oneof_none', 'all branch attributes null / unknown / missing: the oneof is nil whatever the target held'),
     ('C07_from_one', 'from_fields_oneof_some', 'the last known scalar branch wins: the holder is that branch with the decoded value'),
@@ -118,6 +129,12 @@ T['C07'] = ("""C07 Oneof groups stay exclusive in both directions.""", [
     ('C07_to_every_depth_partial', 'copy_to_excl_partial', 'and so in every nested object, list element and map value'),
     ('C07_from_holders_partial', 'copy_from_holders_ok_partial', 'message level, CopyFrom, any object and any prior target: every holder ends up nil or set to ONE branch of its oneof — the last branch in field order whose attribute is present, of the right kind, known and non-null — with the decoded payload'),
     ('C07_round_trip_nofloat32', 'oneof_round_trip_nofloat32', 'an active branch with a non-zero payload survives CopyTo then CopyFrom'),
+    ('C07_from_none_promoted', 'C07_from_none_promoted', 'a oneof promoted from nullable embedded message(s): when no branch attribute sets the holder, CopyFrom leaves no branch — an embedded pointer on the way is nil or the holder is nil — whatever the target held before (the embedded pointer is reset up front, unconditionally)'),
+    ('C07_copy_from_none_promoted', 'C07_copy_from_none_promoted', 'the same through the whole converter'),
+    ('C07_from_one_promoted', 'C07_from_one_promoted', 'when exactly one branch attribute sets the holder, the embedded pointers are allocated and the holder holds that branch with the decoded payload (scalar and message branches), whatever the target held'),
+    ('C07_to_promoted_nil_parent', 'C07_to_promoted_nil_parent', 'CopyTo into an empty object: the branches of a oneof promoted from a nil embedded message are all null'),
+    ('C07_promoted_none_end_to_end', 'C07_promoted_none_end_to_end', 'both directions chained'),
+    ('C07_to_nil_parent_nozero_refuted', 'HasChoiceExample.to_nil_parent_nozero_refuted', 'limit: a by-value branch of a type without zero literal (a nullable=false time in a oneof, which gogo does not generate) would be rendered non-null; the class excludes it'),
 ])
 
 T['C08'] = ("""C08 Apply echo (whole-plan theorems, with and without oneofs, for the class rt_ok; custom types and fields promoted
@@ -148,6 +165,12 @@ T['C09'] = ("""C09 Refresh: in-place CopyTo makes collections and known values f
     ('C09_refresh_rel_partial', 'copy_to_refresh_rel_partial', 'message level: copying a second value into the object an earlier copy produced never fails and relates earlier object, fresh copy and in-place result attribute by attribute at every depth: lists and maps hold exactly the elements of a fresh copy, every payload is the fresh one wherever the fresh value is non-null, every null flag is the fresh one or the earlier one, nothing is unknown (class tf_ok)'),
     ('C09_prior_rel_partial', 'copy_to_prior_rel_partial', 'the same for any well-formed earlier object (schema types at every depth, arbitrary flags, payloads and elements, e.g. read from state), and the result is well-formed again, so refreshes chain'),
     ('C09_idempotent_partial', 'copy_to_idem_partial', 'repeating the same call on its own result changes nothing (syntactic equality, message level)'),
+    ('C09_refresh_embedded_scalar', 'C09_refresh_embedded_scalar', 'a nullable embedded message that is nil in the new source: each scalar promoted from it becomes null and known whatever the object held before (no panic: the read expression is not evaluated), the other attributes are untouched'),
+    ('C09_refresh_embedded_list', 'C09_refresh_embedded_list', 'a list promoted from it holds no element afterwards, whatever it held (the null flag is the earlier one when there was an earlier list, as for any list that becomes nil)'),
+    ('C09_refresh_embedded_map', 'C09_refresh_embedded_map', 'likewise a promoted map: no key survives'),
+    ('C09_refresh_embedded_message', 'C09_refresh_embedded_message', 'a nullable message promoted from it becomes null; a message held by value is rebuilt from the zero struct (never null, as C20 says)'),
+    ('C09_refresh_embedded_idempotent', 'C09_refresh_embedded_idempotent', 'and repeating that call changes nothing'),
+    ('C09_refresh_embedded_oneof_refuted', 'RefreshEmbedded.Counter.to_field_prim_chain_nil_oneof_refuted', 'the scalar statement does not extend to a value-typed oneof branch of the embedded message: the oneof stub reads the branch as the zero value, and an earlier non-null attribute stays non-null with the zero payload (the branch attributes of an absent oneof are C07\'s business: null on a fresh copy)'),
     ('C09_fresh_equality_refuted', 'Counter.refresh_equality_false', 'the stronger reading "in-place equals fresh" is false of the code: null flags are sticky (a scalar that was zero keeps Null when it becomes non-zero; a nullable message that was nil keeps Null when set) — the property is worded accordingly'),
 ])
 
@@ -186,6 +209,13 @@ T['C12'] = ("""C12 Only selected types are emitted, independent of the rest of t
     ('C12_selected', 'C12_selected', 'roots = messages named in types that build'),
     ('C12_independent', 'C12_independent', 'what is generated for a selected type does not depend on which other types are selected'),
     ('C12_roots_in_types', 'build_roots_selected', 'nothing is built as a root for an unselected message'),
+    ('C12_unrelated_messages_partial', 'C12_unrelated_messages_partial', 'a request extended by messages or dependency files whose names do not clash: every type generated before is generated again, from an intermediate representation that is equal up to the Go zero values recorded in it, and equal outright when by-value nesting resolves within the request (partial: that hypothesis)'),
+    ('C12_unrelated_messages_acyclic_partial', 'C12_unrelated_messages_acyclic_partial', 'with the hypothesis stated on the descriptors: by-value message references resolve and are well founded (Go rejects a struct that contains itself by value), then the generated root is literally the same'),
+    ('C12_extra_dependency_partial', 'C12_extra_dependency_partial', 'instance: one more dependency file anywhere among the dependencies, its message names fresh for what follows it'),
+    ('C12_extra_messages_partial', 'C12_extra_messages_partial', 'instance: more messages at the end of the generated file (no freshness needed: the first declaration of a name wins)'),
+    ('C12_unrelated_errors_kept', 'build_message_ext_err', 'a type that fails to build keeps failing with the same error in the larger request, unless the error was an unresolved message name the extension supplies'),
+    ('C12_unrelated_messages_converse_partial', 'C12_unrelated_messages_converse', 'conversely a type generated from the larger request is generated identically from the smaller one, or fails there on a name only the extension declares, or runs out of the model\'s fuel (recursive types under deep path exclusions, outside D)'),
+    ('C12_zero_value_leak_refuted', 'C12_unrelated_messages_refuted', 'without the hypothesis on by-value nesting literal equality is false OF THE MODEL: a (Go-invalid) struct containing itself by value is unrolled to the fuel, which is the number of messages; the real generator has no such artefact (it does not compute zero values), so this marks a limit of the model, not of the code'),
 ])
 
 T['C13'] = ("""C13 Separate-package generation behaves like same-package generation (partial: "compiles there" is decided
@@ -251,6 +281,11 @@ T['C17'] = ("""C17 Custom-type fields are delegated to the user's three hooks.""
     ('C17_from_delegated_message', 'copy_from_custom_delegated', 'message level: after CopyFrom the custom field holds what CopyFrom<S> returned for the attribute (nil when missing, which is reported) and the value the target held; nothing else writes it'),
     ('C17_from_total_message', 'copy_from_total_custom_partial', 'CopyFrom with custom fields returns on every payload-typed object'),
     ('C17_round_trip', 'copy_custom_round_trip_partial', "if the user's two functions are inverse on a value, the field survives CopyTo then CopyFrom"),
+    ('C17_custom_by_configuration', 'C17_custom_by_configuration', 'front end: a field with a custom_types entry for its path is a custom field with the configured (else default) suffix, whatever its proto type, cardinality or cast type'),
+    ('C17_custom_over_cast', 'C17_custom_over_cast', 'in particular a cast type does not stop a field from being custom'),
+    ('C17_custom_by_descriptor', 'C17_custom_by_descriptor', 'without a configuration entry the gogoproto.customtype option decides'),
+    ('C17_custom_iff', 'build_view_custom_iff', 'and a field is custom only for one of these two reasons'),
+    ('C17_custom_in_message', 'C17_custom_in_message', 'lifted to the message: the built message contains that field as a custom field'),
 ])
 
 T['C18'] = ("""C18 A selected type is generated whole or not at all.""", [
@@ -260,6 +295,12 @@ T['C18'] = ("""C18 A selected type is generated whole or not at all.""", [
     ('C18_duration_without_type', 'build_view_duration_without_type', 'a duration field without configured duration_type is an error'),
     ('C18_nested_error', 'build_view_nested_error', 'an error below a nested message is the field\'s error (propagated, not swallowed)'),
     ('C18_exclusion_restores', 'build_view_excluded', 'an excluded field is never looked at'),
+    ('C18_cast_duration_without_type', 'C18_cast_duration_without_type', 'a field cast to the configured custom duration type (or to time.Duration) is a duration whatever its proto type: without duration_type it cannot be mapped'),
+    ('C18_cast_duration_message', 'C18_cast_duration_message', 'so the message that declares it does not build'),
+    ('C18_cast_duration_root', 'C18_cast_duration_root', 'and a selected type that declares it is not among the generated roots'),
+    ('C18_cast_duration_root_skipped', 'C18_cast_duration_root_skipped', 'but among the types reported as skipped'),
+    ('C18_cast_duration_with_type', 'C18_cast_duration_with_type', 'with duration_type the same field is a primitive of the duration type, not an int64'),
+    ('C18_exclusion_beats_type_error', 'C18_exclusion_beats_type_error', 'an excluded field is never looked at: exclusion restores mappability'),
 ])
 
 T['C19'] = ("""C19 Scalar and temporal values survive conversion exactly over their whole range.""", [
@@ -274,6 +315,13 @@ T['C19'] = ("""C19 Scalar and temporal values survive conversion exactly over th
     ('C19_scalar', 'scalar_round_trip', 'every scalar type at once, up to the sign of zero and nil/empty byte strings'),
     ('C19_field_partial', 'prim_field_round_trip', 'through the generated code of one scalar field'),
     ('C19_source_cast_types', 'src_type_table_agrees', "tie to the source: the Go type each proto scalar type is cast from / to, as read from GetTerraformType on this run, is the model's (fixed32 -> uint32, sint64 -> int64, ...)"),
+    ('C19_list_round_trip', 'C19_list_round_trip', 'repeated scalar field (every scalar type but float32): a non-empty list of in-range values is written as a non-null list of the same length and read back, into any target, element by element equal up to the sign of a float zero and nil/empty bytes — zero elements included'),
+    ('C19_list_round_trip_float32', 'C19_list_round_trip_float32', 'the same including float32 elements (standard-library axioms through Flocq)'),
+    ('C19_list_all_zero_survives', 'C19_list_all_zero_survives', 'a list that holds nothing but zero values is not null and comes back with all its elements (each is written as a null element under a non-null list)'),
+    ('C19_list_empty', 'C19_list_empty', 'a nil or empty list is written as the null list and read back as the empty list'),
+    ('C19_map_round_trip', 'C19_map_round_trip', 'map of scalars: same keys in the same order, every value equal up to normal form, zero values included'),
+    ('C19_map_round_trip_float32', 'C19_map_round_trip_float32', 'the same including float32 values (standard-library axioms through Flocq)'),
+    ('C19_map_all_zero_survives', 'C19_map_all_zero_survives', 'a map whose values are all zero keeps every key'),
 ])
 
 T['C20'] = ("""C20 On an empty target, absence is rendered as null and presence as non-null.""", [
